@@ -1,5 +1,5 @@
-(* Extraction of the cache model. ExtrOcamlBasic only; N, positive stay inductive. The two
-   oracles (truth, csize) are ordinary function arguments of the extracted functions. *)
+(* Extraction of the cache model. ExtrOcamlBasic only; N, positive stay inductive. The three
+   oracles (truth, csize, chash) are ordinary function arguments of the extracted functions. *)
 From Coq Require Import NArith List DecimalN.
 From SG Require Import Cache.Model.
 Require Extraction. Require Import ExtrOcamlBasic.
